@@ -156,6 +156,9 @@ TOTAL = [
     r"^core::ops::function::(Fn|FnMut|FnOnce)::.*$", r"^<.* as core::ops::function::(Fn|FnMut|FnOnce)<.*>>::(call|call_mut|call_once)$",
     r"^core::borrow::(Borrow|BorrowMut)::(borrow|borrow_mut)$", r"^<.* as core::borrow::(Borrow|BorrowMut)<.*>>::(borrow|borrow_mut)$",
     r"^core::marker::.*$", r"^core::alloc::layout::Layout::(new|for_value|size|align)$",
+    r"^std::io::error::Error::(kind|new|other|raw_os_error|get_ref|into_inner|last_os_error|from_raw_os_error)$", r"^<std::io::error::(Error|ErrorKind) as .*>::.*$", r"^std::io::error::ErrorKind::.*$",
+    r"^std::io::(Read|BufRead|Write|Seek)::(take|bytes|chain|read_to_string|read_line|lines|write_all|flush|seek_relative|stream_len)$", r"^std::io::cursor::Cursor::<T>::(set_position|get_mut|remaining_slice|is_empty)$",
+    r"^std::io::buffered::(bufreader::BufReader|bufwriter::BufWriter)::<.*>::(new|with_capacity|get_ref|get_mut|into_inner|buffer|capacity)$", r"^<std::io::.* as std::io::(Read|Seek|BufRead|Write)>::.*$",
     r"^core::intrinsics::(discriminant_value|size_of|cold_path|likely|unlikely)$", r"^core::ptr::.*$", r"^core::any::.*$",
 ]
 
